@@ -61,6 +61,12 @@ def synthetic_strings(rng):
         else:
             h = rng.randrange(1, 1 << 32)
         out.append(dict(hash=str(h), msg=rng.choice(SYN_MSGS), loc='file%d.cpp(%d)' % (k, rng.randrange(1, 9999))))
+    # the same hash on several lines with different text: the first one in file order is the exact match
+    for _ in range(rng.choice([0, 1, 2])):
+        twin = dict(rng.choice(out))
+        twin['msg'] = rng.choice(SYN_MSGS) + ' (twin)'
+        twin['loc'] = 'twin.cpp(%d)' % rng.randrange(1, 999)
+        out.insert(rng.randrange(len(out) + 1), twin)
     return out
 
 
